@@ -9,6 +9,7 @@ class OnceTimedOperation(AbstractDenseTimeOnlineOperation):
         self.max = - float("inf")
         self.begin = begin
         self.end = end
+        self.started = False
 
     def reset(self):
         pass
@@ -34,7 +35,7 @@ class OnceTimedOperation(AbstractDenseTimeOnlineOperation):
 
         i = 1
         while len(sample) >= i:
-            if i == 1 and sample[0][0] == 0 and begin > 0:
+            if i == 1 and sample[0][0] == 0 and begin > 0 and not self.started:
                 out.append((0, sample[0][0] + begin, -float('inf')))
             if i == len(sample):
                 b = (sample[i - 1][0] + begin, sample[i-1][0] + end, sample[i - 1][1])
@@ -59,6 +60,9 @@ class OnceTimedOperation(AbstractDenseTimeOnlineOperation):
                             out.append((a[0], b[0], a[2]))
                         out.append((b[0], b[1], b[2]))
             i = i + 1
+
+        if sample:
+            self.started = True
 
         last = []
         prev = float('nan')
